@@ -118,8 +118,16 @@ SHELLS = {
 }
 
 
-def make_machine(kind, sizes=None, linger=0.0, chunk=None):
-    """an un-entered tbot machine of class Bash / Ash talking to real bash / dash"""
+# the configuration a console channel carries when it is handed over (`take()`) by a machine of another kind: a
+# prompt of its own and a black-list of every control character except CR / LF
+FOREIGN_BLACKLIST = [c for c in range(0x20) if c not in (0x0A, 0x0D)] + [0x7F]
+FOREIGN_PROMPT = b"OTHER-MACHINE> "
+
+
+def make_machine(kind, sizes=None, linger=0.0, chunk=None, inherited=False):
+    """an un-entered tbot machine of class Bash / Ash talking to real bash / dash; `inherited`: the channel comes from
+    another machine (as the console channel of a board does, or the channel `UBootShell.boot()` returns): it was
+    configured by that machine and then taken — the new shell's initialisation has to replace all of it"""
     argv, shell_cls = SHELLS[kind]
     env = dict(os.environ)
     env.update({"PS1": "$ ", "ENV": "", "HISTFILE": "/dev/null", "LC_ALL": "C.UTF-8", "TERM": "dumb"})
@@ -134,6 +142,10 @@ def make_machine(kind, sizes=None, linger=0.0, chunk=None):
             ch = channel.Channel(io)
             if chunk is not None:
                 ch.__class__ = type("ChannelChunk", (channel.Channel,), {"READ_CHUNK_SIZE": chunk, "__slots__": ()})
+            if inherited:
+                ch._write_blacklist = list(FOREIGN_BLACKLIST)
+                ch.prompt = FOREIGN_PROMPT
+                ch = ch.take()
             return ch
 
         def clone(self):
